@@ -183,6 +183,11 @@ def run_pipeline_traced(left, right, pipe):
                 for side, cv in (("left", self.left_cv), ("right", self.right_cv if two else None)):
                     if cv is None:
                         continue
+                    conf = {}
+                    if "confidence_measure" in cv:
+                        for k, nm in enumerate(cv["confidence_measure"].coords["indicator"].data):
+                            conf[str(nm)] = np.array(cv["confidence_measure"].data[:, :, k], dtype=np.float64)
+                    snap.setdefault("conf", {})[side] = conf
                     snap[side] = {"cv": np.array(cv["cost_volume"].data, dtype=np.float64),
                                   "mask": np.array(cv["validity_mask"].data).astype(np.int64) if "validity_mask" in cv else None,
                                   "disp": [float(d) for d in cv.coords["disp"].data]}
